@@ -262,14 +262,14 @@ CatalogueOk ==
 (* at the distance x.a where a is the range (unit "range") or the            *)
 (* theoretical scale (unit "scale") given to the library; mode "c" is the    *)
 (* covariance, "g" the variogram form.  An equation is                       *)
-(*    sum_t  c_t . prod_f K_f(x_f)^e_f  =  q + sum_l c_l ln(n_l) + sum_x c_x exp(a_x)   *)
+(*    sum_t  c_t . prod_f K_f(x_f)^e_f  =  q + sum_l c_l ln(n_l) + sum_x c_x exp(a_x) + ip / pi   *)
 (* and must hold in every space dimension listed (the constants of the       *)
 (* generalised covariances depend on the dimension; the equations do not).   *)
 
 F(s, p, x, e, m) == [s |-> s, p |-> p, x |-> x, e |-> e, m |-> m]
 T(c, f) == [c |-> c, f |-> f]
 Eq(cls, s, unit, a, t, q, lg, ex, dg) ==
-  [k |-> "eq", cls |-> cls, s |-> s, unit |-> unit, a |-> a, t |-> t, q |-> q, lg |-> lg, ex |-> ex, dg |-> dg]
+  [k |-> "eq", cls |-> cls, s |-> s, unit |-> unit, a |-> a, t |-> t, q |-> q, lg |-> lg, ex |-> ex, ip |-> <<0, 1>>, dg |-> dg]
 P1 == QI(1)
 Val(cls, s, p, unit, a, x, q, dg) == Eq(cls, s, unit, a, <<T(QI(1), <<F(s, p, x, 1, "c")>>)>>, q, <<>>, <<>>, dg)
 
@@ -316,6 +316,9 @@ RatEqs(thorough) ==
          : k \in { j \in 0..30 : j % 12 \notin {1, 5, 7, 11} }, a \in {QI(1), <<3, 2>>} }
   \cup { Val("rational", "STORKEY", P1, "range", QI(1), x[1], x[2], DgExact)
          : x \in { <<QI(0), QI(1)>>, <<<<1, 2>>, <<1, 6>>>>, <<QI(1), QI(0)>>, <<<<3, 2>>, QI(0)>>, <<QI(2), QI(0)>> } }
+  \* Storkey at the quarters of its range: 1/2 + 1/(2 pi), 1/6 - 1/(2 pi)
+  \cup { [Val("rational", "STORKEY", P1, "range", a, <<1, 4>>, <<1, 2>>, DgExact) EXCEPT !.ip = <<1, 2>>] : a \in {QI(1), <<3, 2>>} }
+  \cup { [Val("rational", "STORKEY", P1, "range", a, <<3, 4>>, <<1, 6>>, DgExact) EXCEPT !.ip = <<-1, 2>>] : a \in {QI(1), <<3, 2>>} }
   \cup { Val("rational", "NUGGET", P1, "range", QI(1), x, IF x = QI(0) THEN QI(1) ELSE QI(0), DgExact) : x \in xs }
   \cup { Val("rational", "COSEXP", p, "scale", QI(1), QMul(p, Q(2 * k + 1, 4)), QI(0), DgExact) : k \in 0..3, p \in {QI(1), QI(4), QI(12)} }
   \* ends of the admitted parameter domains where the published function is defined: J-Bessel with nu = 0 is J0
